@@ -100,6 +100,8 @@ func runAgain(t *testing.T, sc *agScript) (obs *agObs) {
 			body = noGetReader{strings.NewReader(cBodyText)}
 		case "closeonce":
 			body = &closeOnceBody{r: strings.NewReader(cBodyText)}
+		case "getfail_once:1", "getfail_once:2", "getfail_once:3":
+			body = noGetReader{strings.NewReader(cBodyText)}
 		}
 		req, err := http.NewRequestWithContext(ctx, http.MethodPost, "http://verif.invalid/events", body)
 		if err != nil {
@@ -109,6 +111,17 @@ func runAgain(t *testing.T, sc *agScript) (obs *agObs) {
 			req.GetBody = func() (io.ReadCloser, error) {
 				obs.GetBody++
 				return &closeOnceBody{r: strings.NewReader(cBodyText)}, nil
+			}
+		} else if strings.HasPrefix(sc.Body, "getfail_once:") {
+			// the j-th GetBody call fails, every other one works
+			var j int
+			fmt.Sscanf(sc.Body, "getfail_once:%d", &j)
+			req.GetBody = func() (io.ReadCloser, error) {
+				obs.GetBody++
+				if obs.GetBody == j {
+					return nil, errGetBody
+				}
+				return io.NopCloser(strings.NewReader(cBodyText)), nil
 			}
 		} else if req.GetBody != nil {
 			orig := req.GetBody
@@ -189,7 +202,9 @@ func judgeAgain(sc *agScript, obs *agObs) (out []jv) {
 	lastID := ""
 	ri := 0 // next request expected
 	var wantEvents []obsEvent
-	bodyHas := sc.Body == "bytes" || sc.Body == "noget" || sc.Body == "closeonce"
+	bodyHas := sc.Body == "bytes" || sc.Body == "noget" || sc.Body == "closeonce" || strings.HasPrefix(sc.Body, "getfail_once:")
+	failJ, getCalls := 0, 0
+	fmt.Sscanf(sc.Body, "getfail_once:%d", &failJ)
 	for ci := range sc.Calls {
 		if ci >= len(obs.Rets) {
 			break
@@ -198,11 +213,19 @@ func judgeAgain(sc *agScript, obs *agObs) (out []jv) {
 		count, ai := 0, 0
 		var lastKind string
 		var lastReq int
-		noGet := false
+		noGet, getFailed := false, false
 		for {
 			if ri > 0 && sc.Body == "noget" {
 				noGet = true
 				break
+			}
+			if ri > 0 && failJ > 0 {
+				// every request after the first needs a body from GetBody
+				getCalls++
+				if getCalls == failJ {
+					getFailed = true
+					break
+				}
 			}
 			if ri >= len(obs.Reqs) || obs.Reqs[ri].Call != ci {
 				out = append(out, jvf([]string{"attempts"}, "Connect call %d made %d attempts, the backoff policy (MaxRetries %d) prescribes more", ci+1, ai, sc.MaxRetries))
@@ -258,6 +281,10 @@ func judgeAgain(sc *agScript, obs *agObs) (out []jv) {
 			out = append(out, jvf([]string{"ret"}, "Connect call %d returned nil", ci+1))
 		case !errors.As(ret, &ce):
 			out = append(out, jvf([]string{"ret"}, "Connect call %d returned %v (%T), not a *ConnectionError", ci+1, ret, ret))
+		case getFailed:
+			if !errors.Is(ret, errGetBody) {
+				out = append(out, jvf([]string{"nogetbody"}, "Connect call %d: GetBody failed but Connect returned %v", ci+1, ret))
+			}
 		case noGet:
 			if !errors.Is(ret, sse.ErrNoGetBody) {
 				out = append(out, jvf([]string{"nogetbody"}, "Connect call %d: the body cannot be re-obtained but Connect returned %v", ci+1, ret))
@@ -275,7 +302,7 @@ func judgeAgain(sc *agScript, obs *agObs) (out []jv) {
 				out = append(out, jvf([]string{"ret"}, "Connect call %d returned %v, want io.EOF (the last stream ended cleanly)", ci+1, ret))
 			}
 		}
-		if !noGet && ci < len(obs.Retries) && obs.Retries[ci] != ai-1 {
+		if !noGet && !getFailed && ci < len(obs.Retries) && obs.Retries[ci] != ai-1 {
 			out = append(out, jvf([]string{"onretry"}, "Connect call %d: OnRetry called %d times for %d attempts", ci+1, obs.Retries[ci], ai))
 		}
 	}
@@ -320,7 +347,7 @@ func againPhase(t *testing.T, r *fw.Run, prop string, n int, keep map[string]boo
 		}
 		key := fw.Key("R", i)
 		rng := r.Rand("R", i)
-		sc := &agScript{MaxRetries: []int{-1, 1, 2, 3}[rng.IntN(4)], Jitter: []float64{-1, 0.5}[rng.IntN(2)], Body: []string{"nil", "nobody", "bytes", "bytes", "noget", "closeonce", "closeonce"}[rng.IntN(7)]}
+		sc := &agScript{MaxRetries: []int{-1, 1, 2, 3}[rng.IntN(4)], Jitter: []float64{-1, 0.5}[rng.IntN(2)], Body: []string{"nil", "nobody", "bytes", "bytes", "noget", "closeonce", "closeonce", "getfail_once:1", "getfail_once:2", "getfail_once:3"}[rng.IntN(10)]}
 		if rng.IntN(3) == 0 {
 			// a generous budget that no scripted wait comes near, and a pause before the first Connect
 			sc.MaxElapsed = int64(10 * time.Second)
